@@ -184,8 +184,7 @@ def gen(tier, rng):
         def sample():
             S3 = list(shapes(3, 4))
             for t in itertools.product(S3, S3, S3):   # rank 0..3 / extents 1..4 exhaustively in the thorough tier
-                if (hash((tuple(t[0]), tuple(t[1]), tuple(t[2]))) & 3) == 0 or True:
-                    yield t
+                yield t
             for _ in range(150000):                   # rank 4 included: sampled
                 yield (rng.choice(S), rng.choice(S), rng.choice(S))
         triples = sample()
